@@ -87,6 +87,7 @@ use std::ops::Bound::{Excluded, Unbounded};
 //@ include units/C16/bytes_spec.rs
 //@ include units/C16/get_spec.rs
 //@ include units/C16/backing.rs
+//@ include units/C16/clients.rs
 
 proof fn vf_canary_backing() ensures false {}
 } // mod backing
